@@ -8,6 +8,8 @@ from ..ref_ws import SFrame, TEXT, CONT, CLOSE, PING
 REPS = [0x00, 0x7F, 0x80, 0x8F, 0x90, 0x9F, 0xA0, 0xBF, 0xC0, 0xC1, 0xC2, 0xDF, 0xE0, 0xE1, 0xEC, 0xED, 0xEE, 0xEF,
         0xF0, 0xF1, 0xF3, 0xF4, 0xF5, 0xFF]
 EXT = scen.DEFLATE_HDR
+KINDS = frozenset(['not-rejected', 'false-rejection', 'events-differ', 'late-rejection', 'early-rejection', 'leak-after-violation',
+                   'prefix-lost', 'protocol-error-repeated', 'exception-escaped', 'no-termination', 'events-before-dontcare'])
 
 
 def canonical_prefixes():
@@ -246,6 +248,8 @@ class C05(F.Check):
                     for a, b in zip(hashes, hashes[1:]):
                         res.transitions.add(F.hs((a, b)))
                 for kind, msg in problems:
+                    if kind not in KINDS:
+                        continue
                     shape = 'control-between-fragments' if ('ping' in name or 'three' in name) else name.split('/')[0].rstrip('0123456789')
                     res.violate('C05:%s:%s' % (kind, shape), '%s [string %s, variant %s]' % (msg, s.hex(), name),
                                 {'k': 'string', 'hex': s.hex(), 'variant': name, 'neg_len': neg_len})
@@ -276,7 +280,7 @@ class C05(F.Check):
                     print('reference verdict:', stop or 'valid')
                     print('events:', [(e.event.name, e.delivered) for e in run.world.events])
                 shape = 'control-between-fragments' if ('ping' in name or 'three' in name) else name.split('/')[0].rstrip('0123456789')
-                out += [F.Violation('C05:%s:%s' % (kind, shape), msg, case) for kind, msg in problems]
+                out += [F.Violation('C05:%s:%s' % (kind, shape), msg, case) for kind, msg in problems if kind in KINDS]
         else:
             res = F.JobResult()
             self.product(res)
